@@ -194,6 +194,26 @@ fn matches_groups(got: &[Ph], groups: &[&Vec<Ph>]) -> bool {
 
 // ------------------------------------------------------------------ independent format parser
 
+/// `freq INTEGER (lo..hi)` of the ASN.1 module of the tree under test (`$VERIF_REPO/src/dictionary/trie.asn1`)
+fn asn1_freq_range() -> Option<(u64, u64)> {
+    let repo = std::env::var("VERIF_REPO").unwrap_or_else(|_| "/repo".to_string());
+    let text = std::fs::read_to_string(std::path::Path::new(&repo).join("src/dictionary/trie.asn1")).ok()?;
+    for line in text.lines() {
+        let l = line.trim();
+        if l.starts_with("freq") && l.contains("INTEGER") {
+            let a = l.find('(')?;
+            let b = l.find(')')?;
+            let (lo, hi) = l[a + 1..b].split_once("..")?;
+            return Some((lo.trim().parse().ok()?, hi.trim().parse().ok()?));
+        }
+    }
+    None
+}
+
+thread_local! {
+    static FREQ_RANGE: (u64, u64) = asn1_freq_range().unwrap_or((1, 0));
+}
+
 struct Tlv {
     tag: u8,
     start: usize, // of the content
@@ -342,6 +362,10 @@ fn parse_phrases(d: &[u8]) -> Result<Vec<Ph>, String> {
             return Err(format!("freq at {} is not an INTEGER", p));
         }
         let freq = uint_value(&d[f.start..f.end], 4, p)? as u32;
+        let (lo, hi) = FREQ_RANGE.with(|r| *r);
+        if (freq as u64) < lo || (freq as u64) > hi {
+            return Err(format!("freq {} is outside the module's INTEGER ({}..{})", freq, lo, hi));
+        }
         let mut ts = None;
         if f.end != rec.end {
             let t = tlv(d, f.end, rec.end)?;
@@ -1107,6 +1131,10 @@ fn main() {
         cases.push(if i % 25 == 24 { gen_big_leaf(&mut rng) } else { gen_case(&mut rng, class) });
     }
 
+    if asn1_freq_range().is_none() {
+        // fail closed: the documented value range could not be read
+        out.rec("codec xcheck asn1-freq-range-unreadable => fail");
+    }
     // ---- the model's writer on the same inputs (independent writer for the real reader)
     let model_bytes = model_write(&cases);
     if model_bytes.is_none() {
